@@ -54,7 +54,7 @@ type BatchCase struct {
 	Cancel    *CancelSpec  `json:"cancel,omitempty"`
 	WaitHour  bool         `json:"wait_hour,omitempty"`
 	WaitMs    int          `json:"wait_ms,omitempty"`
-	PostEmpty bool         `json:"post_empty,omitempty"` // post returns ""
+	Post      *string      `json:"post,omitempty"`       // action returned by post (nil: "done")
 	SleepUs   int          `json:"sleep_us,omitempty"`   // free-running: upper bound of random per-call sleep
 	ErrResult bool         `json:"err_result,omitempty"` // failing attempts of the Result-style exec function return (NewErrorResult(e), nil) instead of (_, e): exercised by C17 only
 }
@@ -488,6 +488,9 @@ func (b *batchRun) post(ctx context.Context, s *flyt.SharedStore, items, results
 				b.postItemsOK = false
 			}
 		}
+		if b.cs.Post != nil {
+			return flyt.Action(*b.cs.Post), nil
+		}
 		return "done", nil
 	}
 	b.mu.Lock()
@@ -507,8 +510,8 @@ func (b *batchRun) post(ctx context.Context, s *flyt.SharedStore, items, results
 	b.postRes = append([]flyt.Result(nil), results...)
 	b.mu.Unlock()
 	b.record(BEvent{Kind: "post", Item: -1})
-	if b.cs.PostEmpty {
-		return "", nil
+	if b.cs.Post != nil {
+		return flyt.Action(*b.cs.Post), nil
 	}
 	return "done", nil
 }
